@@ -267,27 +267,41 @@ class AppCfgMgr:
             for filename in glob.glob(os.path.join(self.tm_env.cache_dir, '*'))
         }
 
+        # Link names do not identify a container: the monitor and this method
+        # name cleanup links after the instance, _terminate after the
+        # container, and several generations of an instance can coexist.
+        # Always reason on what the links reference.
+        running = {
+            os.path.basename(link): os.path.basename(os.readlink(link))
+            for link in glob.glob(os.path.join(self.tm_env.running_dir, '*'))
+            if os.path.islink(link)
+        }
+        in_cleanup = {
+            os.path.basename(os.readlink(link))
+            for link in glob.glob(os.path.join(self.tm_env.cleanup_dir, '*'))
+            if os.path.islink(link)
+        }
+
         for container in configured:
             appname = appcfg.app_name(container)
-            if os.path.exists(os.path.join(self.tm_env.running_dir, appname)):
+            is_cached = (cached.get(appname) == container)
+            if running.get(appname) == container:
                 # App already running.. check if in cache.
                 # No need to check if needs cleanup as that is handled
-                if appname not in cached or cached[appname] != container:
+                if not is_cached:
                     self._terminate(appname)
+                    del running[appname]
+                    in_cleanup.add(container)
                 else:
                     _LOGGER.info('Ignoring %s as it is running', appname)
 
-                cached.pop(appname, None)
-
-            elif os.path.exists(os.path.join(self.tm_env.cleanup_dir,
-                                             appname)):
+            elif container in in_cleanup:
                 # Already in the process of being cleaned up
-                _LOGGER.info('Ignoring %s as it is in cleanup', appname)
-                cached.pop(appname, None)
+                _LOGGER.info('Ignoring %s as it is in cleanup', container)
 
             else:
                 needs_cleanup = True
-                if appname in cached and cached[appname] == container:
+                if is_cached:
                     data_dir = os.path.join(self.tm_env.apps_dir, container,
                                             'data')
                     for cleanup_file in ['exitinfo', 'aborted', 'oom']:
@@ -296,18 +310,34 @@ class AppCfgMgr:
                             _LOGGER.debug('Found cleanup file %r', path)
                             break
                     else:
+                        if appname in running:
+                            # Another generation still holds the running
+                            # link: hand it over before it is replaced.
+                            self._terminate(appname)
+                            in_cleanup.add(running.pop(appname))
+
                         if self._configure(appname):
                             needs_cleanup = False
+                            running[appname] = container
                             _LOGGER.debug('Added existing app %r', appname)
 
-                    cached.pop(appname, None)
-
                 if needs_cleanup:
+                    cleanup_link = os.path.join(self.tm_env.cleanup_dir,
+                                                appname)
+                    if os.path.lexists(cleanup_link):
+                        # Taken by another generation of the instance.
+                        cleanup_link = os.path.join(self.tm_env.cleanup_dir,
+                                                    container)
                     fs.symlink_safe(
-                        os.path.join(self.tm_env.cleanup_dir, appname),
+                        cleanup_link,
                         os.path.join(self.tm_env.apps_dir, container)
                     )
+                    in_cleanup.add(container)
                     _LOGGER.debug('Removed %r', appname)
+
+            if is_cached:
+                # This cache entry has its container: nothing to add.
+                cached.pop(appname, None)
 
         for appname in six.iterkeys(cached):
             if self._configure(appname):
